@@ -233,9 +233,10 @@ class AxisScope(object):
         if isinstance(e, ast.Name):
             if e.id in self.param_axis and not self.defs.get(e.id):
                 return {self.param_axis[e.id]}
+            if e.id in self.params and suffix_axis(e.id) is not None:
+                return {suffix_axis(e.id)}      # a parameter keeps its API meaning when it is re-bound (e.g. defaulted) locally
             if e.id in self.params and not self.defs.get(e.id):
-                a = suffix_axis(e.id)
-                return {a} if a is not None else set()
+                return set()
             if self.use_local_suffix:
                 a = suffix_axis(e.id)
                 if a is not None:
